@@ -1,6 +1,7 @@
 package c14
 
 import (
+	"encoding/json"
 	"fmt"
 	"sort"
 	"strings"
@@ -578,11 +579,19 @@ func (c14) checkErrors(res *fw.Result, env *caseEnv, oc *opCase, d *decision, mo
 			// or a failed fragment (completed with errors) anchored at an ancestor reports a denial: the
 			// whole fragment, with this position in it, was dropped
 			inFailed := false
+			// failedClass: what the failed fragments anchored above this position report instead (match fact)
+			failedClass := "no-failed-fragment"
 			for _, ff := range gv.failed {
 				if ok, _ := hasPrefixPath(wp, ff.anchor); !ok {
 					continue
 				}
+				if failedClass == "no-failed-fragment" {
+					failedClass = "other-error"
+				}
 				for _, e := range ff.errors {
+					if em, _ := json.Marshal(e); strings.Contains(string(em), "unable to merge results from subgraph") && strings.Contains(string(em), "differing types") {
+						failedClass = "merge-differing-types"
+					}
 					ep := errPath(e)
 					if ep == nil {
 						continue
@@ -597,7 +606,7 @@ func (c14) checkErrors(res *fw.Result, env *caseEnv, oc *opCase, d *decision, mo
 				res.Count("denied_positions_in_failed_deferred_fragment_reporting_a_denial", 1)
 				continue
 			}
-			env.violate(res, "denial-not-reported", "a denied position of an undelivered deferred fragment has no reported denial below its parent ("+mode+" mode)", withFacts(match, "swallowed", "undelivered-fragment"), full(map[string]any{"position": ref.PathKey(we.Path), "gateway_errors": gv.errors}))
+			env.violate(res, "denial-not-reported", "a denied position of an undelivered deferred fragment has no reported denial below its parent ("+mode+" mode)", withFacts(withFacts(match, "swallowed", "undelivered-fragment"), "failed_fragment_reports", failedClass), full(map[string]any{"position": ref.PathKey(we.Path), "gateway_errors": gv.errors}))
 		case z == len(we.Path):
 			found, len1 := false, false
 			for _, gp := range gotPaths {
